@@ -35,6 +35,21 @@ Theorem c06_prefix_extension : forall U n m T q once fuel fuel' mr mf mr' mf' a 
   state_after (run_i U n m T q once) (a_run a) = Some a.
 Proof. exact prefix_extension. Qed.
 
+(* the kind of limit that stops the loop is invisible: the aggregate is a function of the number of runs performed,
+   so a run stopped by max_failures alone after N runs equals the run with max_runs = N (alone or together with
+   any max_failures at least as large) *)
+Theorem c06_same_runs_same_aggregate : forall U n m T q once fuel fuel' mr mf mr' mf' a a',
+  limits_ok mr mf -> limits_ok mr' mf' ->
+  rloop fuel mr mf (run_i U n m T q once) acc0 = Done a ->
+  rloop fuel' mr' mf' (run_i U n m T q once) acc0 = Done a' ->
+  a_run a = a_run a' -> a = a'.
+Proof. exact same_runs_same_aggregate. Qed.
+Theorem c06_cross_limit : forall U n m T q once fuel fuel' mr mf mf' a a',
+  limits_ok mr mf -> limits_ok (Some (a_run a)) mf' -> le_opt mf mf' ->
+  rloop fuel mr mf (run_i U n m T q once) acc0 = Done a ->
+  rloop fuel' (Some (a_run a)) mf' (run_i U n m T q once) acc0 = Done a' -> a' = a.
+Proof. exact cross_limit. Qed.
+
 (* caches: if the key determines the result, no history of earlier calls (nor eviction) is visible *)
 Theorem c06_memo_pure : forall (X K V : Type) (key : X -> K) keqb,
   (forall a b, keqb a b = true <-> a = b) -> forall (f : X -> V) evict,
@@ -71,6 +86,7 @@ Theorem c06_ambient_refuted : exists (h : list (nat + nat)) (x : nat + nat),
 Proof. exact ambient_refuted. Qed.
 
 Print Assumptions c06_function_of_stream. Print Assumptions c06_stream_positions.
-Print Assumptions c06_prefix_extension. Print Assumptions c06_memo_pure. Print Assumptions c06_memo_refuted.
+Print Assumptions c06_prefix_extension. Print Assumptions c06_same_runs_same_aggregate.
+Print Assumptions c06_cross_limit. Print Assumptions c06_memo_pure. Print Assumptions c06_memo_refuted.
 Print Assumptions c06_memo_pure_factor. Print Assumptions c06_memo_refuted_setkey.
 Print Assumptions c06_ambient_pure. Print Assumptions c06_ambient_refuted.
